@@ -13,12 +13,16 @@ import (
 	"verifharness/vlib"
 )
 
+// idKey is a metadata key that identifies a FanOut case's message at the subscriptions (UUIDs may be empty or
+// repeated; the internal Pub/Sub hands out copies, so neither the pointer nor the context survives).
+const idKey = "c17-id"
+
 // foConsumer is one FanOut.Subscribe subscription read by the harness.
 type foConsumer struct {
 	id    string
 	topic string
 	ch    <-chan *message.Message
-	nacks map[string]int // uuid -> number of Nacks before the Ack
+	nacks map[string]int // message id (metadata idKey) -> number of Nacks before the Ack
 
 	mu   sync.Mutex
 	got  []vlib.MsgSnap
@@ -30,12 +34,13 @@ func (c *foConsumer) loop() {
 	defer close(c.done)
 	for m := range c.ch {
 		s := vlib.Snap(m)
+		id := m.Metadata[idKey]
 		c.mu.Lock()
 		c.got = append(c.got, s)
-		n := c.seen[m.UUID]
-		c.seen[m.UUID]++
+		n := c.seen[id]
+		c.seen[id]++
 		c.mu.Unlock()
-		if n < c.nacks[m.UUID] {
+		if n < c.nacks[id] {
 			m.Nack()
 		} else {
 			m.Ack()
@@ -53,9 +58,13 @@ func (c *foConsumer) count() int {
 // gochannel.publish.after_closed_check, a = topic), the settle state of the source copy in flight on that topic.
 type foProbe struct {
 	mon         *monitor
+	conc        bool
 	pubs        map[*copyRec]int
 	sampled     map[*copyRec]string
 	latePublish []string
+	// several copies of a topic in flight (conc): the hook only names the topic, so the clauses are counted ones
+	entries map[string]int // internal Publish calls entered per topic
+	early   []string
 }
 
 func (p *foProbe) at(point, a, b string) {
@@ -64,21 +73,44 @@ func (p *foProbe) at(point, a, b string) {
 	}
 	p.mon.mu.Lock()
 	defer p.mon.mu.Unlock()
-	for _, f := range p.mon.byKey {
-		if f.rm.SrcTopic == a {
-			p.pubs[f.rec]++
-			if s := vlib.Settled(f.rec.m); s != "" && p.sampled[f.rec] == "" {
-				p.sampled[f.rec] = s
+	if p.conc {
+		// Every acknowledged copy of topic a was acknowledged after its own internal Publish had been entered, and the
+		// copy this call belongs to is not settled yet: with E calls entered so far (this one included) at most E-1
+		// copies of the topic can be acked. (Calls that enter later wait for the monitor lock, acks of earlier ones do not.)
+		p.entries[a]++
+		acked := 0
+		for _, f := range p.mon.flights {
+			if f.rm.SrcTopic == a && vlib.Settled(f.rec.m) == "ack" {
+				acked++
 			}
-			return
+		}
+		if acked >= p.entries[a] {
+			p.early = append(p.early, fmt.Sprintf("internal Publish #%d on topic %q entered when %d source copies of that topic were already acked", p.entries[a], a, acked))
+		}
+		return
+	}
+	for _, l := range p.mon.byKey {
+		for _, f := range l {
+			if f.rm.SrcTopic == a {
+				p.pubs[f.rec]++
+				if s := vlib.Settled(f.rec.m); s != "" && p.sampled[f.rec] == "" {
+					p.sampled[f.rec] = s
+				}
+				return
+			}
 		}
 	}
 	p.latePublish = append(p.latePublish, a)
 }
 
-func runFanOut(e *vlib.Env) vlib.Result {
+func runFanOut(e *vlib.Env) vlib.Result { return runFanOutOpt(e, false) }
+
+func runFanOutOpt(e *vlib.Env, conc bool) vlib.Result {
 	r := e.R
 	res := vlib.Result{Class: "fanout"}
+	if conc {
+		res.Class = "concurrent/fanout"
+	}
 	ctl := vlib.NewCtl(r.Uint64(), 0.15, 30)
 	defer ctl.Uninstall()
 
@@ -109,10 +141,19 @@ func runFanOut(e *vlib.Env) vlib.Result {
 	var msgs []*relayMsg
 	byTopic := map[string][]*relayMsg{}
 	n := r.Range(3, 10)
+	if conc {
+		n = r.Range(4, 12)
+	}
+	o := &odd{}
+	ids := map[string]*relayMsg{}
 	for i := 0; i < n; i++ {
 		m := genMsg(e, i, true)
+		o.uuid(r, m)
+		id := fmt.Sprint(i)
+		m.Metadata.Set(idKey, id)
 		t := topics[r.Intn(nTopics)]
 		rm := &relayMsg{No: i, Kind: "relay", SrcTopic: t, Orig: m, Valid: true, WantTopic: t, Want: vlib.Snap(m), MaxRedeliver: 2}
+		ids[id] = rm
 		msgs = append(msgs, rm)
 		byTopic[t] = append(byTopic[t], rm)
 	}
@@ -125,9 +166,9 @@ func runFanOut(e *vlib.Env) vlib.Result {
 			switch x := r.Intn(10); {
 			case x < 7:
 			case x < 9:
-				c.nacks[rm.Orig.UUID] = 1
+				c.nacks[rm.Orig.Metadata[idKey]] = 1
 			default:
-				c.nacks[rm.Orig.UUID] = 2
+				c.nacks[rm.Orig.Metadata[idKey]] = 2
 			}
 		}
 		consumers = append(consumers, c)
@@ -167,9 +208,27 @@ func runFanOut(e *vlib.Env) vlib.Result {
 	}
 
 	mon := newMonitor(false)
-	probe := &foProbe{mon: mon, pubs: map[*copyRec]int{}, sampled: map[*copyRec]string{}}
+	probe := &foProbe{mon: mon, conc: conc, pubs: map[*copyRec]int{}, sampled: map[*copyRec]string{}, entries: map[string]int{}}
+	var co *concOpts
+	wd := vlib.WD
+	if conc {
+		// FanOut's destination is its own GoChannel: the gate sits between the handler's return and the Router's
+		// publishing of what it returned (hook router.handle.before_publish)
+		co = newConc(r, r.Range(2, 4), "hook")
+		wd.IgnoreFrames = []string{gateFrame}
+		defer co.gate.openForever()
+	}
 	if verifhook.Enabled {
-		ctl.Observe(probe.at)
+		ctl.Observe(func(point, a, b string) {
+			probe.at(point, a, b)
+			if co != nil {
+				co.hook(point, a, b)
+			}
+		})
+	} else if conc {
+		res.Verdict = vlib.Unreached
+		res.Reason = "hooks are not compiled in: the gate of the concurrent FanOut class needs router.handle.before_publish"
+		return res
 	}
 
 	var runErr error
@@ -225,13 +284,7 @@ func runFanOut(e *vlib.Env) vlib.Result {
 	}
 	var wg sync.WaitGroup
 	for _, t := range topics {
-		wg.Add(1)
-		go func(sp *vlib.Subscription, list []*relayMsg) {
-			defer wg.Done()
-			for _, rm := range list {
-				mon.deliver(sp, rm)
-			}
-		}(subs[t], byTopic[t])
+		spawnDeliverers(&wg, mon, subs[t], byTopic[t], co)
 	}
 	delivDone := started(wg.Wait)
 
@@ -239,11 +292,11 @@ func runFanOut(e *vlib.Env) vlib.Result {
 	expect := func(c *foConsumer) int {
 		n := 0
 		for _, rm := range byTopic[c.topic] {
-			n += 1 + c.nacks[rm.Orig.UUID]
+			n += 1 + c.nacks[rm.Orig.Metadata[idKey]]
 		}
 		return n
 	}
-	oc, dump := vlib.WaitUntil(func() bool {
+	complete := func() bool {
 		if !vlib.IsClosed(delivDone) {
 			return false
 		}
@@ -253,7 +306,18 @@ func runFanOut(e *vlib.Env) vlib.Result {
 			}
 		}
 		return true
-	}, vlib.WD)
+	}
+	var oc vlib.Outcome
+	var dump string
+	for {
+		oc, dump = vlib.WaitUntil(func() bool { return complete() || (co != nil && co.ready()) }, wd)
+		if co == nil || oc == vlib.Inconclusive || complete() || !co.open(oc) {
+			break
+		}
+	}
+	if co != nil {
+		co.gate.openForever()
+	}
 	settledAll := vlib.IsClosed(delivDone)
 	switch oc {
 	case vlib.Stuck:
@@ -263,7 +327,7 @@ func runFanOut(e *vlib.Env) vlib.Result {
 			for _, c := range consumers {
 				c.mu.Lock()
 				for _, rm := range byTopic[c.topic] {
-					if c.seen[rm.Orig.UUID] == 0 {
+					if c.seen[rm.Orig.Metadata[idKey]] == 0 {
 						res.Fail("fanout-missing", "FanOut: subscription %s never received message #%d uuid=%q consumed from topic %q (source copy acked; process quiescent)", c.id, rm.No, rm.Orig.UUID, rm.SrcTopic)
 					}
 				}
@@ -302,7 +366,7 @@ func runFanOut(e *vlib.Env) vlib.Result {
 			if rec.settle == "" {
 				continue
 			}
-			if verifhook.Enabled {
+			if verifhook.Enabled && !conc {
 				if s := probe.sampled[rec]; s != "" {
 					res.Fail("ack-before-accept", "%s: source copy was already %sed when the internal Pub/Sub's Publish was entered", where, s)
 				}
@@ -320,19 +384,34 @@ func runFanOut(e *vlib.Env) vlib.Result {
 	if verifhook.Enabled && len(probe.latePublish) > 0 {
 		res.Fail("ack-before-accept", "FanOut: internal Publish on topic(s) %q entered while no source message of that topic was in flight (after its settlement)", probe.latePublish)
 	}
-	mon.mu.Unlock()
-	wantByUUID := map[string]*relayMsg{}
-	for _, rm := range msgs {
-		wantByUUID[rm.Orig.UUID] = rm
+	if conc {
+		if len(probe.early) > 0 {
+			res.Fail("ack-before-accept", "FanOut: %s (%d such entries)", probe.early[0], len(probe.early))
+		}
+		ackedOn := map[string]int{}
+		for _, f := range mon.flights {
+			if f.rec.settle == "ack" {
+				ackedOn[f.rm.SrcTopic]++
+			}
+		}
+		for t, a := range ackedOn {
+			if probe.entries[t] < a {
+				res.Fail("ack-without-accept", "FanOut: %d source copies of topic %q were acked, but the internal Pub/Sub's Publish was entered only %d times for that topic", a, t, probe.entries[t])
+			}
+		}
 	}
+	mon.mu.Unlock()
 	for _, c := range consumers {
 		c.mu.Lock()
 		res.Events += len(c.got)
 		for _, g := range c.got {
-			rm := wantByUUID[g.UUID]
+			rm := ids[g.Metadata[idKey]]
 			if rm == nil || rm.SrcTopic != c.topic {
-				res.Fail("fanout-invented", "FanOut: subscription %s received message uuid=%q that was never consumed from its topic", c.id, g.UUID)
+				res.Fail("fanout-invented", "FanOut: subscription %s received message uuid=%q (%s=%q) that was never consumed from its topic", c.id, g.UUID, idKey, g.Metadata[idKey])
 				continue
+			}
+			if g.UUID != rm.Want.UUID {
+				res.Fail("dest-uuid", "FanOut: subscription %s got message #%d with uuid %q, consumed with uuid %q", c.id, rm.No, g.UUID, rm.Want.UUID)
 			}
 			if string(g.Payload) != string(rm.Want.Payload) {
 				res.Fail("dest-payload", "FanOut: subscription %s got payload %q for uuid=%q, want %q", c.id, clip(g.Payload), g.UUID, clip(rm.Want.Payload))
@@ -342,10 +421,11 @@ func runFanOut(e *vlib.Env) vlib.Result {
 			}
 		}
 		for _, rm := range byTopic[c.topic] {
-			want := 1 + c.nacks[rm.Orig.UUID]
-			nackedBySubs += c.nacks[rm.Orig.UUID]
-			if got := c.seen[rm.Orig.UUID]; got > want {
-				res.Fail("fanout-invented", "FanOut: subscription %s received message #%d uuid=%q %d times, want %d (1 + its %d Nacks)", c.id, rm.No, rm.Orig.UUID, got, want, c.nacks[rm.Orig.UUID])
+			id := rm.Orig.Metadata[idKey]
+			want := 1 + c.nacks[id]
+			nackedBySubs += c.nacks[id]
+			if got := c.seen[id]; got > want {
+				res.Fail("fanout-invented", "FanOut: subscription %s received message #%d uuid=%q %d times, want %d (1 + its %d Nacks)", c.id, rm.No, rm.Orig.UUID, got, want, c.nacks[id])
 			} else if got < want && !res.Failed() && oc == vlib.Done {
 				res.Fail("fanout-missing", "FanOut: subscription %s received message #%d uuid=%q %d times, want %d", c.id, rm.No, rm.Orig.UUID, got, want)
 			}
@@ -363,12 +443,20 @@ func runFanOut(e *vlib.Env) vlib.Result {
 		total += c.count()
 	}
 	res.Count("fanout_deliveries", total)
-	res.NonTrivial = relayed > 0 && maxSubs >= 2
+	res.NonTrivial = relayed > 0 && (maxSubs >= 2 || o.any())
+	o.count(&res)
+	if conc {
+		co.count(&res)
+		res.NonTrivial = relayed > 0 && maxSubs >= 1 && co.multiRelease > 0
+	}
 	shape := ""
 	for _, c := range consumers {
 		shape += fmt.Sprintf("%d/%d;", len(byTopic[c.topic]), expect(c))
 	}
 	res.Sig = vlib.Sig("fanout", nTopics, logger == nil, dupAdds, early, shape, shapeSig(msgs))
+	if conc {
+		res.Sig = vlib.Sig(res.Sig, co.sig())
+	}
 	res.Hooks = ctl.Counts()
 	var cs []map[string]any
 	for i, c := range consumers {
